@@ -313,24 +313,30 @@ impl Loop3D {
         // Check the point
         self.valid_to_add(point)?;
 
-        let n = self.vertices.len();
-
-        // If there are previous points, Check the points before the new addition
-        if n >= 2 {
-            let a = self.vertices[n - 2];
-            let b = self.vertices[n - 1];
-
-            // three coincident points count as collinear
-            if a.is_collinear(b, point).unwrap_or(true) {
-                // if it is collinear, update last point instead of
-                // adding a new one
-                self.vertices[n - 1] = point;
-            } else {
-                self.vertices.push(point);
+        // Drop the vertices that the new point makes redundant (a repeated point adds
+        // nothing; a last vertex that is collinear with its neighbours---including
+        // one left on a zero-width spike by a point that folds back---is removed)
+        loop {
+            let n = self.vertices.len();
+            if n >= 1 && self.vertices[n - 1].compare(point) {
+                return Ok(());
             }
-        } else {
-            self.vertices.push(point);
+            if n >= 2 {
+                let a = self.vertices[n - 2];
+                let b = self.vertices[n - 1];
+                // three coincident points count as collinear
+                if a.is_collinear(b, point).unwrap_or(true) {
+                    self.vertices.pop();
+                    if self.vertices.len() < 3 {
+                        // the plane is not defined any more
+                        self.normal = Vector3D::new(0., 0., 0.);
+                    }
+                    continue;
+                }
+            }
+            break;
         }
+        self.vertices.push(point);
 
         // Calcualte the normal if possible
         if self.vertices.len() == 3 {
